@@ -228,6 +228,9 @@ func (_this *RulesEventReceiver) OnNan(signaling bool) {
 }
 
 func (_this *RulesEventReceiver) OnUID(value []byte) {
+	if len(value) != 16 {
+		panic(fmt.Errorf("a UID must be 16 bytes long (got %v bytes)", len(value)))
+	}
 	_this.context.NotifyNewObject(true)
 	_this.context.CurrentEntry.Rule.OnKeyableObject(&_this.context, DataTypeUID, value)
 	_this.receiver.OnUID(value)
